@@ -8,6 +8,8 @@ package main
 // handler: the instate upgrade goes through).
 
 import (
+	slashingtypes "github.com/KiraCore/sekai/x/slashing/types"
+	stakingtypes "github.com/KiraCore/sekai/x/staking/types"
 	spendingtypes "github.com/KiraCore/sekai/x/spending/types"
 	collectiveskeeper "github.com/KiraCore/sekai/x/collectives/keeper"
 	colltypes "github.com/KiraCore/sekai/x/collectives/types"
@@ -730,4 +732,60 @@ func c06BlacklistedVoter(r *Rec) {
 		r.Count(fmt.Sprintf("blacklisted-voter:halted=%v", halted))
 		r.Case(label, true)
 	}
+}
+
+// c06RestartWithIdleValidator: a chain with a paused (or downtime-inactivated) validator is exported and restarted from the
+// export; the validator then comes back (its owner unpauses / activates it) and signs again. Every block of the new chain
+// completes, and the consensus set after the restart is the set of active validators (C05).
+func c06RestartWithIdleValidator(r *Rec, prop string) {
+	label := "restart from an export with a paused validator that returns afterwards"
+	r.Mark(label)
+	w := NewWorld(WorldOpts{NAcc: 5, NVal: 3, SudoAccs: []int{4}})
+	run := func(w *World, what string, txs [][]byte) bool {
+		br := w.Block(txs, BlockOpts{Dt: 6 * time.Second})
+		if br.Panicked != nil {
+			if key, whatK := c06Classify(c06Site(br.Panicked, br.Stack)); key != "" && prop == "C06" {
+				r.Known(key, whatK+fmt.Sprintf(" [%s, %s: panic in %s]", label, what, br.Phase))
+			} else {
+				r.Fail(prop+"/restart/returning-validator-halts", fmt.Sprintf("%s: block %d (%s) panicked in %s: %.200v", label, w.height, what, br.Phase, br.Panicked), nil)
+			}
+			return false
+		}
+		if err := w.ApplyUpdates(br.Updates); err != nil {
+			r.Fail(prop+"/restart/updates-not-applicable", fmt.Sprintf("%s: block %d (%s): %v", label, w.height, what, err), nil)
+			return false
+		}
+		return true
+	}
+	if !run(w, "warm-up", nil) || !run(w, "validator 1 pauses", [][]byte{w.MustSign([]sdk.Msg{slashingtypes.NewMsgPause(sdk.ValAddress(w.addrs[1]))}, 1, ukex(5000))}) || !run(w, "settle", nil) || !run(w, "settle", nil) {
+		return
+	}
+	nw, exportedVals, failed := w.RestartFromExport()
+	if failed != nil {
+		r.Fail(prop+"/restart/export-cannot-be-imported", fmt.Sprintf("%s: %.200v", label, failed), nil)
+		return
+	}
+	// the engine's initial set = the validators recorded as active
+	ctx := nw.ReadCtx()
+	active := 0
+	for i := 0; i < 3; i++ {
+		if v, err := nw.app.CustomStakingKeeper.GetValidator(ctx, sdk.ValAddress(nw.addrs[i])); err == nil && v.Status == stakingtypes.Active {
+			active++
+		}
+	}
+	r.Count(fmt.Sprintf("restart:active=%d:in-set=%d:in-exported-document=%d", active, len(nw.valSet.Validators), exportedVals))
+	if len(nw.valSet.Validators) != active || (exportedVals != 0 && exportedVals != active) {
+		r.Fail(prop+"/restart/initial-set-is-not-the-active-set", fmt.Sprintf("%s: %d validators are recorded as active, InitChain handed %d to the engine, the exported genesis document lists %d", label, active, len(nw.valSet.Validators), exportedVals), nil)
+	}
+	if !run(nw, "first block of the new chain", nil) || !run(nw, "validator 1 unpauses", [][]byte{nw.MustSign([]sdk.Msg{slashingtypes.NewMsgUnpause(sdk.ValAddress(nw.addrs[1]))}, 1, ukex(5000))}) {
+		return
+	}
+	for b := 0; b < 6; b++ {
+		if !run(nw, "the returned validator signs", nil) {
+			return
+		}
+	}
+	v, err := nw.app.CustomStakingKeeper.GetValidator(nw.ReadCtx(), sdk.ValAddress(nw.addrs[1]))
+	r.Case(label, err == nil && v.Status == stakingtypes.Active)
+	r.Count(fmt.Sprintf("restart:returned=%v", err == nil && v.Status == stakingtypes.Active))
 }
